@@ -26,7 +26,8 @@ int main(int argc, char** argv) {
         std::ostringstream o;
         o << "islots " << ivl->rows();
         for (size_t k = 0; k < ivl->rows(); ++k)
-            o << " " << hex(ivl->slot(k).lower()) << " " << hex(ivl->slot(k).upper());
+            o << " " << hex(ivl->slot(k).lower()) << " " << hex(ivl->slot(k).upper())
+              << " " << hex(ivl->slot(k).isSafe() ? 1.0f : 0.0f);
         return o.str();
     };
 
